@@ -177,7 +177,7 @@ public:
     }
     case 11: { // recursion (short / full); a bare step (without the variable) is compared with the initial value by the recursion rule itself
       const std::string v = Fresh(); const std::string init = r.Pct(30) ? std::string("∅") : Expr(t, depth + 1);   // with ∅ the type of the variable is re-deduced from the step
-      Push({ v, t }); std::string step = r.Pct(30) ? Rhs(t, depth + 1) : v + "∪" + Rhs(t, depth + 1); std::string cond = r.Pct(50) ? "|card(" + v + ")<" + std::to_string(r.Range(1, 6)) : ""; locals.pop_back();
+      Push({ v, t }); std::string step = r.Pct(10) ? std::string("∅") : r.Pct(30) ? Rhs(t, depth + 1) : v + "∪" + Rhs(t, depth + 1); std::string cond = r.Pct(50) ? "|card(" + v + ")<" + std::to_string(r.Range(1, 6)) : ""; locals.pop_back();
       return "R{" + v + ":=" + init + cond + "|" + step + "}";
     }
     case 12: return Dom(u);
